@@ -222,10 +222,13 @@ func replayRPCPath(rep *vh.Report, p *rpcPlan, pi int, path []rpcStep) (conform 
 		return map[string]any{"plan": p.Name, "path": pi, "step": i, "consts": map[string]any{"cacheSize": p.CacheSize,
 			"burst": p.Burst, "rate": p.Rate, "maxConns": p.MaxConns, "rateOn": p.RateOn}, "steps": path[:i+1]}
 	}
+	diverged := false // the real code left the model's behaviour: the rest of the path is judged by the monitors only
 	drift := func(i int, f string, a ...any) {
-		conform = false
-		rep.Inconclusivef("conformance drift (model and code differ, no stated property is violated): %s path %d step %d (%+v): %s",
-			p.Name, pi, i, path[i].L, fmt.Sprintf(f, a...))
+		if !diverged {
+			rep.Inconclusivef("conformance drift (model and code differ, no stated property is violated): %s path %d step %d (%+v): %s",
+				p.Name, pi, i, path[i].L, fmt.Sprintf(f, a...))
+		}
+		conform, diverged = false, true
 	}
 	defer func() {
 		// let every request still inside the handler end, so that the bubble can close
@@ -269,12 +272,12 @@ func replayRPCPath(rep *vh.Report, p *rpcPlan, pi int, path []rpcStep) (conform 
 
 			// M3: a rejected request never reaches the handler; an admitted one reaches it once
 			if !admitted && entered != 0 {
-				rep.Violate("X_limits/rpc/rejected-request-reached-handler",
+				violate(rep, "X_limits/rpc/rejected-request-reached-handler",
 					fmt.Sprintf("request answered %d was served by the handler", code), where(i))
 				return false
 			}
 			if admitted && entered != 1 {
-				rep.Violate("X_limits/rpc/handler-entered-twice", fmt.Sprintf("handler entered %d times", entered), where(i))
+				violate(rep, "X_limits/rpc/handler-entered-twice", fmt.Sprintf("handler entered %d times", entered), where(i))
 				return false
 			}
 			// rate accounting
@@ -296,13 +299,13 @@ func replayRPCPath(rep *vh.Report, p *rpcPlan, pi int, path []rpcStep) (conform 
 				switch {
 				case passed && !rateOK:
 					// M5: more than burst + rate*window (+ one burst per eviction) for this address
-					rep.Violate("X_limits/rpc/rate/over-admission",
+					violate(rep, "X_limits/rpc/rate/over-admission",
 						fmt.Sprintf("address %s passed the rate limit although its bucket (burst %d, %d token(s) per tick, evictions "+
 							"accounted from the real cache) holds %.3f tokens", ip, p.Burst, p.Rate, a.tokens), where(i))
 					return false
 				case !passed && code == http.StatusTooManyRequests && rateOK:
 					// M6: keys are independent / tokens refill: a key inside its rate is not refused
-					rep.Violate("X_limits/rpc/rate/refused-inside-rate",
+					violate(rep, "X_limits/rpc/rate/refused-inside-rate",
 						fmt.Sprintf("address %s got 429 although its bucket holds %.3f tokens", ip, a.tokens), where(i))
 					return false
 				}
@@ -316,7 +319,7 @@ func replayRPCPath(rep *vh.Report, p *rpcPlan, pi int, path []rpcStep) (conform 
 				// M7 / M8: cache bound and legitimacy of evictions
 				after := rig.view.CacheKeys()
 				if len(after) > p.CacheSize {
-					rep.Violate("X_limits/rpc/cache-exceeds-bound", fmt.Sprintf("%d buckets cached, bound %d", len(after), p.CacheSize), where(i))
+					violate(rep, "X_limits/rpc/cache-exceeds-bound", fmt.Sprintf("%d buckets cached, bound %d", len(after), p.CacheSize), where(i))
 					return false
 				}
 				for _, a2 := range mon.acct {
@@ -338,7 +341,7 @@ func replayRPCPath(rep *vh.Report, p *rpcPlan, pi int, path []rpcStep) (conform 
 					if !afterSet[k] {
 						rep.Count("rpc_evictions_seen", 1)
 						if n := len(mon.acct[k].since); n < p.CacheSize {
-							rep.Violate("X_limits/rpc/evicted-too-early",
+							violate(rep, "X_limits/rpc/evicted-too-early",
 								fmt.Sprintf("bucket of %s evicted after only %d other address(es) were seen since its last request (cache size %d)",
 									k, n, p.CacheSize), where(i))
 							return false
@@ -348,12 +351,12 @@ func replayRPCPath(rep *vh.Report, p *rpcPlan, pi int, path []rpcStep) (conform 
 			}
 			// M4: 503 iff every slot is taken
 			if code == http.StatusServiceUnavailable && insideBefore < p.MaxConns {
-				rep.Violate("X_limits/rpc/conn/refused-with-free-slot",
+				violate(rep, "X_limits/rpc/conn/refused-with-free-slot",
 					fmt.Sprintf("503 with %d of %d slots in use", insideBefore, p.MaxConns), where(i))
 				return false
 			}
 			if admitted && insideBefore >= p.MaxConns {
-				rep.Violate("X_limits/rpc/conn/bound-exceeded",
+				violate(rep, "X_limits/rpc/conn/bound-exceeded",
 					fmt.Sprintf("request admitted with %d of %d slots in use", insideBefore, p.MaxConns), where(i))
 				return false
 			}
@@ -367,17 +370,16 @@ func replayRPCPath(rep *vh.Report, p *rpcPlan, pi int, path []rpcStep) (conform 
 				rep.Count("rpc_ws_admitted", 1)
 			}
 			if admitted {
+				if open[st.L.R] != nil {
+					// (only after a divergence) the model reuses an identity the real code still has inside the handler
+					gt.release <- "returned"
+					<-gt.done
+					return
+				}
 				open[st.L.R] = gt
 			}
 			if got != st.O {
-				if admitted {
-					// keep the bubble closable
-					gt.release <- "returned"
-					<-gt.done
-					delete(open, st.L.R)
-				}
 				drift(i, "model outcome %s, real outcome %s", st.O, got)
-				return
 			}
 		case "finish":
 			gt := open[st.L.R]
@@ -407,7 +409,7 @@ func replayRPCPath(rep *vh.Report, p *rpcPlan, pi int, path []rpcStep) (conform 
 		// ---- monitors on the state between stimuli
 		inside := int(rig.inside.Load())
 		if inside > p.MaxConns || int(rig.maxIn.Load()) > p.MaxConns {
-			rep.Violate("X_limits/rpc/conn/bound-exceeded", fmt.Sprintf("%d requests inside the handler, bound %d", inside, p.MaxConns), where(i))
+			violate(rep, "X_limits/rpc/conn/bound-exceeded", fmt.Sprintf("%d requests inside the handler, bound %d", inside, p.MaxConns), where(i))
 			return false
 		}
 		if s := rig.view.SlotsInUse(); s != inside {
@@ -421,7 +423,7 @@ func replayRPCPath(rep *vh.Report, p *rpcPlan, pi int, path []rpcStep) (conform 
 			} else {
 				sig += "/after-" + st.L.Op + "-" + st.O
 			}
-			rep.Violate(sig, fmt.Sprintf("%d slots in use with %d requests inside the handler after %+v", s, inside, st.L), where(i))
+			violate(rep, sig, fmt.Sprintf("%d slots in use with %d requests inside the handler after %+v", s, inside, st.L), where(i))
 			return false
 		}
 		wsIn := 0
@@ -431,26 +433,29 @@ func replayRPCPath(rep *vh.Report, p *rpcPlan, pi int, path []rpcStep) (conform 
 			}
 		}
 		if w := int(rig.view.WebsocketsOpen()); w != wsIn {
-			rep.Violate("X_limits/rpc/ws-gauge", fmt.Sprintf("websocket gauge %d with %d upgraded requests inside the handler", w, wsIn), where(i))
+			violate(rep, "X_limits/rpc/ws-gauge", fmt.Sprintf("websocket gauge %d with %d upgraded requests inside the handler", w, wsIn), where(i))
 			return false
 		}
 
 		// ---- conformance with the model's state
+		if diverged {
+			continue
+		}
 		if st.P.Sem != rig.view.SlotsInUse() || st.P.Ws != int(rig.view.WebsocketsOpen()) {
 			drift(i, "model sem=%d ws=%d, real sem=%d ws=%d", st.P.Sem, st.P.Ws, rig.view.SlotsInUse(), rig.view.WebsocketsOpen())
-			return
+			continue
 		}
 		if p.RateOn {
 			keys := rig.view.CacheKeys()
 			if !eqKeys(keys, st.P.Cache) {
 				drift(i, "cache order: model %+v, real %v (least recently used first)", st.P.Cache, keys)
-				return
+				continue
 			}
 			for _, e := range st.P.Cache {
 				tk, ok := rig.view.Tokens(keyIP(e.K))
 				if !ok || math.Abs(tk-float64(e.T)) > 1e-6 {
 					drift(i, "tokens of %s: model %d, real %.6f (present=%v)", e.K, e.T, tk, ok)
-					return
+					break
 				}
 			}
 		}
@@ -520,7 +525,7 @@ func runExtractCases(rep *vh.Report, cases []xCase) {
 		}
 		if got != want {
 			if c.Strips && c.Form != "hostport" && c.Form != "zoneport" {
-				rep.Violate("X_limits/rpc/extractIP/port-not-stripped/"+c.Form,
+				violate(rep, "X_limits/rpc/extractIP/port-not-stripped/"+c.Form,
 					fmt.Sprintf("extractIP(%q) = %q: the same host with different ports gets different buckets", addr, got), c)
 			} else {
 				rep.Inconclusivef("conformance drift: extractIP(%q) = %q, model %q", addr, got, want)
@@ -531,15 +536,23 @@ func runExtractCases(rep *vh.Report, cases []xCase) {
 			keys[c.Form] = map[int]string{}
 		}
 		if prev, ok := keys[c.Form][c.Host]; ok && prev != got && c.Strips {
-			rep.Violate("X_limits/rpc/extractIP/one-host-two-keys/"+c.Form, fmt.Sprintf("%q vs %q", prev, got), c)
+			violate(rep, "X_limits/rpc/extractIP/one-host-two-keys/"+c.Form, fmt.Sprintf("%q vs %q", prev, got), c)
 		}
 		keys[c.Form][c.Host] = got
 	}
 	for f, m := range keys {
 		if f != "empty" && len(m) == 2 && m[1] == m[2] {
-			rep.Violate("X_limits/rpc/extractIP/two-hosts-one-key/"+f, fmt.Sprintf("both hosts map to %q", m[1]), nil)
+			violate(rep, "X_limits/rpc/extractIP/two-hosts-one-key/"+f, fmt.Sprintf("both hosts map to %q", m[1]), nil)
 		}
 	}
+}
+
+// nViol counts the violations recorded so far (the report's own slice is guarded by its private lock).
+var nViol atomic.Int64
+
+func violate(rep *vh.Report, sig, what string, replay any) {
+	nViol.Add(1)
+	rep.Violate(sig, what, replay)
 }
 
 // runPaths replays n paths of one plan, each in its own bubble, on a few worker goroutines (paths are
@@ -550,6 +563,7 @@ func runPaths(t *testing.T, rep *vh.Report, kind, plan string, n int, replay fun
 	var (
 		mu   sync.Mutex
 		next int
+		bad  int
 		halt bool
 		wg   sync.WaitGroup
 	)
@@ -577,11 +591,17 @@ func runPaths(t *testing.T, rep *vh.Report, kind, plan string, n int, replay fun
 				if !okRun {
 					rep.Inconclusivef("%s path %s/%d did not finish (harness stuck):\n%s", kind, plan, i, dump[:min(len(dump), 3000)])
 				}
-				if !okRun || !ok {
-					mu.Lock()
-					halt = true
-					mu.Unlock()
+				if !ok {
+					rep.Count(kind+"_paths_diverged", 1)
 				}
+				mu.Lock()
+				if !ok {
+					bad++
+				}
+				if !okRun || bad >= 40 || nViol.Load() > 0 {
+					halt = true
+				}
+				mu.Unlock()
 			}
 		}()
 	}
@@ -599,7 +619,7 @@ func TestDriver(t *testing.T) {
 	if p, v := vh.Recover(func() { runRPCPlans(t, rep) }); p {
 		rep.Inconclusivef("driver panicked: %s", v)
 	}
-	if len(rep.Violations) == 0 {
+	if nViol.Load() == 0 {
 		if p, v := vh.Recover(func() { runShrexPlans(t, rep) }); p {
 			rep.Inconclusivef("driver panicked: %s", v)
 		}
